@@ -46,6 +46,11 @@ class CheckError(Exception):
     """The check itself could not run (build failure of the machinery, …)."""
 
 
+class RealCodeCrash(Exception):
+    """The harness process died OUTSIDE a case (while generating cases or setting up) with a Go panic /
+    fatal error whose stack has frames in the tree under test: the real code crashed."""
+
+
 def sh(cmd, cwd=None, env=None, timeout=1800, input=None):
     p = subprocess.run(cmd, cwd=cwd, env=env, timeout=timeout, input=input,
                        stdout=subprocess.PIPE, stderr=subprocess.STDOUT, text=True)
@@ -294,7 +299,10 @@ def run_cases(ctx, binp, prop, shards=8, extra=None, budget_s=900, env=None):
     for i in range(shards):
         info = results[i]
         if info.get("fatal"):
-            raise CheckError(info["fatal"])
+            f = info["fatal"]
+            if ("panic:" in f or "fatal error:" in f or "goroutine " in f) and (REPO.rstrip("/") + "/") in f:
+                raise RealCodeCrash(f)
+            raise CheckError(f)
         if info.get("timeout"):
             raise CheckError(f"harness shard {i} did not finish within {budget_s}s")
         for l in _read_lines(os.path.join(ctx.work, f"cases.{i}")):
@@ -450,7 +458,19 @@ def standard(ctx, spec):
     shards = spec.get("shards", 8)
     budget = spec.get("budget_s", 600 if not thorough else 3000)
     extra = spec["extra_args"](ctx) if spec.get("extra_args") else []
-    cases, gores, stats, infos = run_cases(ctx, binp, ctx.prop, shards=shards, extra=extra, budget_s=budget)
+    try:
+        cases, gores, stats, infos = run_cases(ctx, binp, ctx.prop, shards=shards, extra=extra, budget_s=budget)
+    except RealCodeCrash as e:
+        rp = write_replay(ctx, "crash-outside-case", {"output": str(e)[-1500:]},
+                          "the real code does not crash while the harness prepares its cases (it calls the lexer / parser / "
+                          "interpreter to build payloads)", "Go panic / fatal error with frames in the tree under test",
+                          f"./check {ctx.prop}   (the crash happens while cases are generated)")
+        violation(ctx, rp, "the real code crashed while the cases were being generated: " + " ".join(str(e).split())[-160:])
+        ctx.coverage.setdefault("evaluations", 0)
+        ctx.coverage.setdefault("distinct_nontrivial", 0)
+        ctx.coverage["samples"] = [{"crash": str(e)[-300:]}]
+        write_evidence(ctx)
+        return 1
     ctx.log(f"harness: {len(cases)} cases, {sum(len(i['crashes']) for i in infos.values())} crashes, "
             f"{sum(i['restarts'] for i in infos.values())} restarts")
     if os.path.exists(DRIVER):
